@@ -6,39 +6,46 @@
 //     strong_typedef_map / apply / construct_cast / output / input, fcppt::function / make_function,
 //     unique_ptr_to_const, unique_ptr_from_std of a null pointer, unique_ptr_dynamic_cast.
 // No expected values: spec/OrderJudge.tla (TLC) is the judge.
-#include <common/vjson.hpp>
+//
+// Compiled once per SECTION (two harness units, see c17_common.hpp / c17_main.cpp):
+//   -DC17_SECTION_own    part "own":   the ownership histories
+//   -DC17_SECTION_wrapx  part "wrapx": the wrapx records
+#include "c17_common.hpp"
 
 #include <fcppt/const_pointer_cast.hpp>
 #include <fcppt/dynamic_pointer_cast.hpp>
 #include <fcppt/enable_shared_from_this.hpp>
+#include <fcppt/make_shared_ptr.hpp>
+#include <fcppt/make_unique_ptr.hpp>
+#include <fcppt/shared_ptr.hpp>
+#include <fcppt/static_pointer_cast.hpp>
+#include <fcppt/unique_ptr.hpp>
+#include <fcppt/unique_ptr_from_std.hpp>
+#include <fcppt/unique_ptr_to_base.hpp>
+#include <fcppt/weak_ptr.hpp>
+#include <fcppt/optional/object.hpp>
+
+#ifdef C17_SECTION_wrapx
 #include <fcppt/function.hpp>
 #include <fcppt/make_function.hpp>
 #include <fcppt/make_ref.hpp>
-#include <fcppt/make_shared_ptr.hpp>
 #include <fcppt/make_strong_typedef.hpp>
-#include <fcppt/make_unique_ptr.hpp>
 #include <fcppt/recursive.hpp>
 #include <fcppt/reference.hpp>
 #include <fcppt/reference_to_base.hpp>
 #include <fcppt/reference_to_const.hpp>
-#include <fcppt/shared_ptr.hpp>
-#include <fcppt/static_pointer_cast.hpp>
 #include <fcppt/strong_typedef.hpp>
 #include <fcppt/strong_typedef_apply.hpp>
 #include <fcppt/strong_typedef_construct_cast.hpp>
 #include <fcppt/strong_typedef_input.hpp>
 #include <fcppt/strong_typedef_map.hpp>
 #include <fcppt/strong_typedef_output.hpp>
-#include <fcppt/unique_ptr.hpp>
 #include <fcppt/unique_ptr_dynamic_cast.hpp>
-#include <fcppt/unique_ptr_from_std.hpp>
-#include <fcppt/unique_ptr_to_base.hpp>
 #include <fcppt/unique_ptr_to_const.hpp>
-#include <fcppt/weak_ptr.hpp>
 #include <fcppt/cast/dynamic_fun.hpp>
 #include <fcppt/cast/size_fun.hpp>
-#include <fcppt/optional/object.hpp>
 #include <fcppt/variant/holds_type.hpp>
+#endif
 
 #include <memory>
 #include <optional>
@@ -80,6 +87,11 @@ using sp = fcppt::shared_ptr<pointee_base>;
 using wp = fcppt::weak_ptr<pointee_base>;
 using up = fcppt::unique_ptr<pointee_base>;
 
+}
+
+#ifdef C17_SECTION_own
+namespace
+{
 constexpr std::size_t max_slots = 3;
 struct machine
 {
@@ -101,7 +113,7 @@ std::string state_json(machine const &m, std::size_t const ns, std::size_t const
   {
     if (i) s += ',';
     if (m.sh[i].has_value())
-      s += "[" + std::to_string((*m.sh[i])->id) + "," + std::to_string(m.sh[i]->use_count()) + "," + (m.sh[i]->unique() ? "1" : "0") + "," +
+      s += "[" + std::to_string(c17::cl((*m.sh[i])->id)) + "," + std::to_string(c17::cl(m.sh[i]->use_count())) + "," + (m.sh[i]->unique() ? "1" : "0") + "," +
            ((m.sh[i]->get_pointer() == &**m.sh[i]) ? "1" : "0") + "]";
     else
       s += "[0,0,0,1]";
@@ -111,7 +123,7 @@ std::string state_json(machine const &m, std::size_t const ns, std::size_t const
   {
     if (i) s += ',';
     if (m.wk[i].has_value())
-      s += "[1," + std::to_string(m.wk[i]->use_count()) + "," + (m.wk[i]->expired() ? "1" : "0") + "]";
+      s += "[1," + std::to_string(c17::cl(m.wk[i]->use_count())) + "," + (m.wk[i]->expired() ? "1" : "0") + "]";
     else
       s += "[0,0,0]";
   }
@@ -119,7 +131,7 @@ std::string state_json(machine const &m, std::size_t const ns, std::size_t const
   for (std::size_t i = 0; i < nu; ++i)
   {
     if (i) s += ',';
-    s += m.un[i].has_value() ? std::to_string((*m.un[i])->id) : "0";
+    s += m.un[i].has_value() ? std::to_string(c17::cl((*m.un[i])->id)) : "0";
   }
   s += "],\"obj\":[";
   for (std::size_t o = 1; o < reg.ctors.size(); ++o)
@@ -191,7 +203,7 @@ void run_history(char const *src, std::size_t ns, std::size_t nw, std::size_t nu
 {
   reg.reset();
   vj::J pre;
-  pre.kv("f", "own").kv("src", src).kv("ns", static_cast<long long>(ns)).kv("nw", static_cast<long long>(nw)).kv("nu", static_cast<long long>(nu));
+  pre.kv("f", "own").kv("k", static_cast<long long>(c17::K())).kv("src", src).kv("ns", static_cast<long long>(ns)).kv("nw", static_cast<long long>(nw)).kv("nu", static_cast<long long>(nu));
   std::string opsj = "[";
   for (std::size_t k = 0; k < ops.size(); ++k)
   {
@@ -288,7 +300,7 @@ void run_random_history(unsigned long long const seed, long const h, std::size_t
 {
   reg.reset();
   vj::J pre;
-  pre.kv("f", "own").kv("src", "rnd").kv("hseed", static_cast<long long>(seed % 1000000ULL)).kv("h", static_cast<long long>(h))
+  pre.kv("f", "own").kv("k", static_cast<long long>(c17::K())).kv("src", "rnd").kv("hseed", static_cast<long long>(seed % 1000000ULL)).kv("h", static_cast<long long>(h))
       .kv("ns", static_cast<long long>(ns)).kv("nw", static_cast<long long>(nw)).kv("nu", static_cast<long long>(nu));
   vj::begin_call(pre.s);
   vj::Rng g(seed * 1000003ULL + static_cast<unsigned long long>(h));
@@ -313,11 +325,19 @@ void run_random_history(unsigned long long const seed, long const h, std::size_t
   vj::end_call(r + "]}");
 }
 
+}
+#endif // C17_SECTION_own
+
+#ifdef C17_SECTION_wrapx
+namespace
+{
 // ---------------------------------------------------------------- wrapx records
 void wrapx(char const *kind, std::vector<long long> const &in, std::vector<long long> const &out)
 {
   vj::J j;
-  j.kv("f", "wrapx").kv("kind", kind).raw("in", vj::arr(in)).raw("out", vj::arr(out));
+  std::vector<long long> o;
+  for (long long const x : out) o.push_back(c17::clampv(x));
+  j.kv("f", "wrapx").kv("k", static_cast<long long>(c17::K())).kv("kind", kind).raw("in", vj::arr(in)).raw("out", vj::arr(o));
   vj::line(j);
 }
 
@@ -351,6 +371,7 @@ void wrapx_records()
 {
   for (int v : {0, 1, 2, -7, 40})
   {
+    if (!c17::take()) continue;
     int const w = v + 100;
     {
       shape_derived d;
@@ -446,13 +467,23 @@ void wrapx_records()
 }
 }
 
-void c17_ownership_records(char const *scripts, bool const thorough, unsigned long long const seed)
+C17_PART(wrapx)
 {
+  (void)seed;
+  (void)thorough;
+  (void)extra;
   wrapx_records();
+}
+#endif // C17_SECTION_wrapx
+
+#ifdef C17_SECTION_own
+C17_PART(own)
+{
   // spec -> code: TLC-generated scripts (one JSON array of [op, a, b] records per line)
-  if (scripts != nullptr)
-    for (auto const &line : vj::read_lines(scripts))
+  if (extra != nullptr)
+    for (auto const &line : vj::read_lines(extra))
     {
+      if (!c17::take()) continue;
       vj::VP const sc = vj::parse(line);
       std::vector<op> ops;
       for (auto const &e : sc->a)
@@ -466,6 +497,8 @@ void c17_ownership_records(char const *scripts, bool const thorough, unsigned lo
       run_history("script", 3, 3, 3, ops);
     }
   // code -> spec: random histories
-  long const nh = thorough ? 20000 : 1500;
-  for (long h = 0; h < nh; ++h) run_random_history(seed, h, 3, 2, 2);
+  long const nh = thorough != 0 ? 20000 : 1500;
+  for (long h = 0; h < nh; ++h)
+    if (c17::take()) run_random_history(seed, h, 3, 2, 2);
 }
+#endif
